@@ -11,6 +11,7 @@ RULE = ('request sequences (1..5) over methods {GET,POST,PUT,DELETE,OPTIONS} x t
         'HTTP/1.1} x {well-formed, malformed start line/header/length, idle past timeout}; plans: request-at-a-time (client '
         'waits for each answer), one request split into 2..n segments or byte-wise, several requests in one segment '
         '(known finding F01); non-trivial = >= 2 requests or a split request or an error path')
+NEEDS_TOKIO = True
 ASSUMPTIONS = ['one TCP segment written while the server is blocked in read() is delivered by one read(); pauses of 4 ms separate '
                'segments (only matters for single requests, whose result is proved segmentation-independent)',
                'Date header value is checked for IMF-fixdate shape and closeness to the wall clock, then masked for the byte comparison',
@@ -208,6 +209,23 @@ def run(ctx):
     m = ctx.model(lines)
     im = ctx.impl(lines)
     ctx.evaluations += len(lines)
+    judge(ctx, cases, m, im, 'threaded')
+    # the tokio runtime has no connection timeout (no 408): every plan without an idle gap is replayed on it
+    tk = [i for i, c in enumerate(cases) if ',i' not in c[0] and not c[0].endswith(' i')]
+    if ctx.tier != 'thorough':
+        tk = tk[::2]
+    if tk and not ctx.replay:
+        tlines = [lines[i] for i in tk]
+        tim = ctx.impl(tlines, tokio=True)
+        ctx.evaluations += len(tlines)
+        judge(ctx, [cases[i] for i in tk], [m[i] for i in tk], tim, 'tokio')
+    for k in (0, len(lines) // 2):
+        if k < len(lines) and cases[k][1]:
+            ctx.sample({'family': cases[k][1]['family'], 'requests': [r['raw'].decode('latin-1')[:60] for r in cases[k][1]['reqs']],
+                        'impl': im[k][:120]})
+
+
+def judge(ctx, cases, m, im, runtime):
     now = time.time()
     for (line, info), a, b in zip(cases, m, im):
         if not b.startswith('out='):
@@ -228,11 +246,11 @@ def run(ctx):
             if not same:
                 ctx.report({'line': line}, b[:400], a[:400], cls='conn-mismatch', failing_input=False, what='replay differs from the model')
             continue
-        ctx.count('family:' + info['family'])
+        ctx.count(runtime + ':family:' + info['family'])
         ctx.count('model-end:' + mod_end)
         exp, exp_closed = expected(info['reqs'], info['idle'])
         v = check_property(exp, exp_closed, got, stray, err, closed, now)
-        case = {'line': line, 'family': info['family'], 'requests': [r['raw'].decode('latin-1')[:80] for r in info['reqs']], 'idle': info['idle']}
+        case = {'line': line, 'runtime': runtime, 'family': info['family'], 'requests': [r['raw'].decode('latin-1')[:80] for r in info['reqs']], 'idle': info['idle']}
         if v is not None:
             cls, what = v
             if info['family'] == 'pipeline' and cls in ('count', 'keepalive', 'status'):
@@ -245,7 +263,3 @@ def run(ctx):
                        what='bytes on the wire differ from the model (property holds on this input)')
         if len(info['reqs']) >= 2 or info['family'] == 'split' or info['idle'] is not None or any(r['bad'] for r in info['reqs']):
             ctx.mark_nontrivial(line)
-    for k in (0, len(lines) // 2):
-        if k < len(lines) and cases[k][1]:
-            ctx.sample({'family': cases[k][1]['family'], 'requests': [r['raw'].decode('latin-1')[:60] for r in cases[k][1]['reqs']],
-                        'impl': im[k][:120]})
